@@ -8,6 +8,12 @@ random.shuffle (all permutations of small buckets, several of large ones), throu
 PeerManager.on_peers_subscribe.
 Part B (exhaustive inputs): feature dictionaries for Peer.peers_from_features over hosts x port
 values from a JSON alphabet x container shapes.
+Part C (exhaustive histories): "in any state" includes states only a history reaches.  Every
+sequence up to a depth of peer-life events - a (re-)verification of a peer through the real
+PeerManager._should_drop_peer / _verify_peer against a scripted remote (answers correctly from an
+address in a crowded network or elsewhere, wrong genesis hash, unreachable), the clock advancing,
+a client's server.peers.subscribe - judged after every subscribe against a reference that knows
+only what the remotes did: where each peer was last reached and when it last answered correctly.
 '''
 import ipaddress
 import itertools
@@ -28,12 +34,14 @@ STATE_TIMES = {'good': NOW - 10, 'stale': NOW - STALE - 100, 'never': 0, 'bad': 
 
 
 class FixedTime:
+    now = NOW
+
     def __getattr__(self, n):
         import time
         return getattr(time, n)
 
     def time(self):
-        return NOW
+        return self.now
 
 
 def mk_peer(host, state, ip_addr=None):
@@ -236,6 +244,214 @@ def case_population(case, res):
         res.sample({'part': 'population', 'case': case, 'shuffle_outcomes': runs}, cap=1)
 
 
+# ---------------------------------------------------------------------------- part C: histories
+TICK = 80 * 60          # three ticks make a verification stale
+CROWDED4 = '23.45.{}.1'
+OTHER4 = '99.88.{}.1'
+CROWDED6 = '2a01:4f8:c0c:{:x}::1'
+
+
+class Remote:
+    '''What the host behind a peer's name does when connected to: scripted per event.'''
+    def __init__(self):
+        self.addr = None
+        self.mode = 'down'
+
+
+class FakeSession:
+    def __init__(self, host, remote, genesis):
+        self.host, self.remote, self.genesis = host, remote, genesis
+        self.sent_request_timeout = None
+
+    def remote_address(self):
+        import aiorpcx
+        return aiorpcx.NetAddress(self.remote.addr, 50001)
+
+    async def send_request(self, method, args=()):
+        if method == 'server.version':
+            return ['ElectrumX 1.16.0', '1.4']
+        if method == 'blockchain.headers.subscribe':
+            return {'height': 100, 'hex': '00' * 80}
+        if method == 'blockchain.block.header':
+            return '00' * 80
+        if method == 'server.features':
+            g = self.genesis if self.remote.mode == 'ok' else 'ff' * 32
+            return {'hosts': {self.host: {'tcp_port': 50001, 'ssl_port': 50002}},
+                    'genesis_hash': g, 'protocol_min': '1.4', 'protocol_max': '1.4.2',
+                    'server_version': 'ElectrumX 1.16.0', 'pruning': None}
+        if method == 'server.peers.subscribe':
+            return []
+        if method == 'server.add_peer':
+            return True
+        raise AssertionError(method)
+
+
+class FakeDBState:
+    height = 100
+
+
+class FakeDB:
+    state = FakeDBState()
+
+    async def raw_header(self, height):
+        return bytes(80)
+
+
+HISTORY_BOUNDS = {'quick': [('quick', 4)], 'thorough': [('thorough', 4), ('quick', 5)]}
+
+
+def history_events(tier):
+    names = ['two.example.com', 'one.example.com'] + ([] if tier == 'quick' else ['bg.example.org'])
+    where = ['A', 'B'] + ([] if tier == 'quick' else ['C6'])
+    evs = []
+    for n in names:
+        for w in where:
+            evs.append(('verify', n, w))
+        evs.append(('verify', n, 'badgen'))
+        evs.append(('verify', n, 'down'))
+    evs.append(('verify', '23.45.1.1', 'ok'))
+    evs.append(('tick',))
+    evs.append(('subscribe', False))
+    return evs
+
+
+def case_history(case, res):
+    from vf.vloop import VLoop
+    pm, peersmod = make_pm('good')
+    clock = peersmod.time
+    clock.now = NOW
+    pm.db = FakeDB()
+    pm.env.services = []
+    genesis = pm.env.coin.GENESIS_HASH
+    remotes = {}
+
+    class connect_rs:
+        def __init__(self, host, port, **kw):
+            self.host = str(host)
+
+        async def __aenter__(self):
+            r = remotes[self.host]
+            if r.mode == 'down':
+                raise OSError('connection refused')
+            return FakeSession(self.host, r, genesis)
+
+        async def __aexit__(self, *a):
+            return False
+
+    peersmod.connect_rs = connect_rs
+
+    class Rnd:
+        plan = 0
+
+        def __getattr__(self, n):
+            import random
+            return getattr(random, n)
+
+        def shuffle(self, lst):
+            if self.plan:
+                lst.reverse()
+    rnd = Rnd()
+    peersmod.random = rnd
+
+    # initial population: two recently verified peers in the crowded networks, one elsewhere,
+    # one never verified
+    init = [('23.45.1.1', '23.45.1.1', 'good'), ('bg.example.org', CROWDED4.format(2), 'good'),
+            ('two.example.com', OTHER4.format(3), 'good'), ('one.example.com', None, 'never'),
+            ('2a01:4f8:c0c:1::1', '2a01:4f8:c0c:1::1', 'good'),
+            ('2a01:4f8:c0c:2::1', '2a01:4f8:c0c:2::1', 'good')]
+    slot = {h: i + 10 for i, (h, _, _) in enumerate(init)}
+    ref = {}
+    peers = {}
+    for host, ip, st in init:
+        p = mk_peer(host, st, ip_addr=ip)
+        peers[host] = p
+        remotes[host] = Remote()
+        remotes[host].addr = ip
+        ref[host] = dict(addr=ip, last_ok=STATE_TIMES[st], failed=False)
+    pm.peers = set(peers.values())
+    own_hosts = {m.host for m in pm.myselves}
+    loop = VLoop()
+    loop.enter()
+    moved_advertised = 0
+    try:
+        events = [tuple(e) for e in case['events']] + [('subscribe', False), ('subscribe', True)]
+        for n, ev in enumerate(events):
+            if ev[0] == 'tick':
+                clock.now += TICK
+            elif ev[0] == 'verify':
+                host, what = ev[1], ev[2]
+                peer = peers[host]
+                if peer not in pm.peers:
+                    continue                    # forgotten: nothing monitors it any more
+                r = remotes[host]
+                if what == 'down':
+                    r.mode = 'down'
+                else:
+                    r.mode = 'bad' if what == 'badgen' else 'ok'
+                    if what == 'A':
+                        r.addr = CROWDED4.format(slot[host])
+                    elif what == 'B':
+                        r.addr = OTHER4.format(slot[host])
+                    elif what == 'C6':
+                        r.addr = CROWDED6.format(slot[host])
+                    if r.addr is None:
+                        r.addr = OTHER4.format(slot[host])
+                try:
+                    drop = loop.run_coro(pm._should_drop_peer(peer))
+                except Exception as e:      # noqa
+                    res.violation('history:verification-raises', case,
+                                  dict(event=list(ev), error=repr(e)))
+                    return
+                if drop:
+                    pm.peers.discard(peer)      # what _monitor_peer does
+                res.count('verifications')
+                if r.mode != 'down':
+                    ref[host]['addr'] = r.addr
+                    ref[host]['failed'] = r.mode != 'ok'
+                    if r.mode == 'ok':
+                        ref[host]['last_ok'] = clock.now
+            else:
+                for plan in (0, 1):
+                    rnd.plan = plan
+                    try:
+                        out = pm.on_peers_subscribe(ev[1])
+                    except Exception as e:      # noqa
+                        res.violation('history:subscribe-raises', case,
+                                      dict(event_index=n, error=repr(e)))
+                        return
+                    res.count('subscribe_calls')
+                    bad = None
+                    buckets = {}
+                    for _ip, host, _details in out:
+                        if host in own_hosts:
+                            continue
+                        r_ = ref.get(host)
+                        if r_ is None:
+                            bad = ('history:advertised-unknown-peer', dict(host=host))
+                        elif not r_['last_ok'] > clock.now - STALE:
+                            bad = ('history:advertised-peer-not-verified-recently', dict(host=host))
+                        elif r_['failed']:
+                            bad = ('history:advertised-peer-that-failed-verification', dict(host=host))
+                        b = ext_bucket(host, r_['addr'] if r_ else None)
+                        buckets[b] = buckets.get(b, 0) + 1
+                        if r_ and r_['addr'] != dict((h, i) for h, i, _ in init)[host]:
+                            moved_advertised += 1
+                    over = {b: k for b, k in buckets.items() if k > 2 and b != 'onion'}
+                    if over and not bad:
+                        bad = ('history:more-than-two-per-bucket', dict(buckets=over))
+                    res.maxi('history_peers_advertised', len(out))
+                    if bad:
+                        res.violation(bad[0], case, dict(events=[list(e) for e in events[:n + 1]],
+                                                         answer=[t[1] for t in out], **bad[1]))
+                        return
+    finally:
+        loop.close()
+    res.count('histories')
+    res.count('moved_peer_advertised', moved_advertised)
+    if moved_advertised and len(case['events']) >= 2:
+        res.sample({'part': 'history', 'events': case['events']}, cap=1)
+
+
 HOST_ALPHABET = [
     'example.com', 'a.b.c.example.org', 'UPPER.Example.COM', 'under_score.example.com',
     'trailingdot.example.com.', 'localhost', 'x', '-bad.example.com', 'bad-.example.com',
@@ -309,7 +525,9 @@ def _one_features(Peer, feats, res, ident):
 
 
 def run_case(case, res):
-    if 'kind' in case:
+    if 'events' in case:
+        case_history(case, res)
+    elif 'kind' in case:
         if 'tp' in case:            # replay of a single dictionary
             from electrumx.lib.peer import Peer
             host = HOST_ALPHABET[case['host']]
@@ -344,6 +562,17 @@ def cases_for(tier):
                                 cases.append(dict(a=list(a), b=list(b), c=list(c),
                                                   p=['good', 'good'], h=list(h), onions=onions,
                                                   own=own, tor=tor))
+    seen = set()
+    for alphabet, depth in HISTORY_BOUNDS[tier]:
+        evs = history_events(alphabet)
+        for d in range(0, depth + 1):
+            for seq in itertools.product(evs, repeat=d):
+                # a history ending in a subscribe is a prefix of another one (the closing
+                # subscribes are always appended)
+                if (seq and seq[-1][0] == 'subscribe') or seq in seen:
+                    continue
+                seen.add(seq)
+                cases.append(dict(events=[list(e) for e in seq]))
     for i in range(len(HOST_ALPHABET)):
         cases.append(dict(kind='hosts-x-ports', host=i))
     cases.append(dict(kind='shapes'))
@@ -355,16 +584,22 @@ def run(tier, seed, started):
     res = farm(run_case, cases, seed=seed)
     c = res.counters
     if c.get('populations', 0) < 1000 or c.get('peers_built', 0) < 10000 or \
-            c.get('max:onions_advertised', 0) < 45:
+            c.get('max:onions_advertised', 0) < 45 or not c.get('moved_peer_advertised') or \
+            c.get('max:history_peers_advertised', 0) < 5:
         raise common.Broken(f'vacuous C19 run: {c}')
     coverage = {
         'evaluations': c['subscribe_calls'] + c['feature_dicts'],
+        'histories': c['histories'], 'verifications_through_real_code': c['verifications'],
+        'history_bounds(alphabet_size,depth)': [(len(history_events(a)), d)
+                                                 for a, d in HISTORY_BOUNDS[tier]],
         'distinct_nontrivial': c['populations'] + c['peers_built'],
         'rule': ('A: product of per-slot peer states x onion count x own-identity state x requester, '
                  'each with every permutation outcome of random.shuffle for buckets of <= 3 peers and '
                  '4 outcomes for larger lists (at most 60 outcome combinations per population, cap '
                  'counted); B: every host of a 45-host alphabet x every pair of port values of a '
-                 '30-value JSON alphabet, plus container shapes'),
+                 '30-value JSON alphabet, plus container shapes; C: every sequence of peer-life events '
+                 'up to the stated depth over the stated alphabet, two shuffle outcomes per '
+                 'subscribe'),
         'populations': c['populations'], 'subscribe_calls': c['subscribe_calls'],
         'shuffle_cap_hits': c.get('shuffle_cap_hits', 0),
         'feature_dicts': c['feature_dicts'], 'peers_built': c['peers_built'],
